@@ -54,6 +54,10 @@ fn run(data: &[u8]) {
     if data.len() < 4 {
         return;
     }
+    // the last 8 bytes of the input double as the tail seed of the late generator features
+    let mut data = data.to_vec();
+    data.extend_from_slice(&jxlref::src::TAIL_MAGIC);
+    let data = &data[..];
     let mut src = Src::new(data);
     let cfg = src.byte();
     let mut ao = AnyOpts::default();
